@@ -83,7 +83,8 @@ func (b *Builder) cache(mKey interface{}, cachedMocker Mocker) {
 // Struct 指定结构体实例
 // 比如需要 mock 结构体函数 (*conn).Write(b []byte)，则 name="conn"
 func (b *Builder) Struct(instance interface{}) *CachedMethodMocker {
-	mKey := reflect.ValueOf(instance).Type().String()
+	// 以 reflect.Type 本身作为 key: 不同目录下的同名包里的同名类型 String() 相同, 但不是同一个类型
+	mKey := reflect.ValueOf(instance).Type()
 	if mocker, ok := b.mockers[mKey]; ok && !mocker.Canceled() {
 		b.reset2CurPkg()
 		return mocker.(*CachedMethodMocker)
